@@ -97,12 +97,6 @@ func (srv *Srv) attach(req *SrvReq) {
 		return
 	}
 
-	req.Fid = conn.FidNew(tc.Fid)
-	if req.Fid == nil {
-		req.RespondError(Einuse)
-		return
-	}
-
 	var user User
 	if tc.Unamenum != NOUID || conn.Dotu {
 		user = srv.Upool.Uid2User(int(tc.Unamenum))
@@ -115,12 +109,19 @@ func (srv *Srv) attach(req *SrvReq) {
 		return
 	}
 
+	// look the afid up before the new fid exists, so that it cannot name it
 	if tc.Afid != NOFID {
 		req.Afid = conn.FidGet(tc.Afid)
 		if req.Afid == nil {
 			req.RespondError(Eunknownfid)
 			return
 		}
+	}
+
+	req.Fid = conn.FidNew(tc.Fid)
+	if req.Fid == nil {
+		req.RespondError(Einuse)
+		return
 	}
 
 	req.Fid.User = user
